@@ -647,7 +647,7 @@ def _entry(draw):
 def binary_cases(draw, op, lk, rk, tier, big=False):
     """lk, rk: operand kinds; at least one is 'utpm'"""
     D, P = _dims(draw, tier, big=big)
-    regime = 'exact' if big else _regime(draw)
+    regime = draw(st.sampled_from(['exact', 'exact', 'float'])) if big else _regime(draw)
     steered = []
     case = {'form': 'binary', 'op': op, 'regime': regime, 'entry': _entry(draw)}
     if lk == 'utpm' and rk == 'utpm':
@@ -705,7 +705,7 @@ INPLACE_FAMILY = {
 @st.composite
 def inplace_cases(draw, op, fam, tier, big=False):
     D, P = _dims(draw, tier, big=big)
-    regime = 'exact' if big else _regime(draw)
+    regime = draw(st.sampled_from(['exact', 'exact', 'float'])) if big else _regime(draw)
     steered = []
     case = {'form': 'inplace', 'op': op, 'regime': regime}
     if fam == 'alias':
@@ -775,7 +775,7 @@ def pow_cases(draw, kind, tier, big=False):
     steered = []
     xc = draw(st.integers(0, 2)) == 0
     if kind == 'int':
-        regime = 'exact' if big else _regime(draw)
+        regime = draw(st.sampled_from(['exact', 'exact', 'float'])) if big else _regime(draw)
         case['regime'] = regime
         case['r'] = draw(st.sampled_from([0, 1, 2, 2, 3, 3, 4, 5]))
         case['rk'] = 'pyint'
@@ -973,12 +973,12 @@ def buckets(tier):
                 heavy = (op in ('mul', 'truediv'))
                 bl.append(Bucket('%s:%s:%s' % (op, lk, rk),
                                  (lambda op=op, lk=lk, rk=rk: binary_cases(op, lk, rk, tier)), prop,
-                                 {'quick': 100, 'thorough': 1000}, nontrivial=_nontrivial, classes=_classes,
+                                 {'quick': 80, 'thorough': 1000}, nontrivial=_nontrivial, classes=_classes,
                                  weight=(3.0 if heavy else 1.0) * _heavy(lk, rk)))
     for op in OPS:
         for fam in ('utpm', 'pyscalar', 'npscalar', 'ndarray', 'alias'):
             bl.append(Bucket('i%s:%s' % (op, fam), (lambda op=op, fam=fam: inplace_cases(op, fam, tier)), prop,
-                             {'quick': 140, 'thorough': 650}, nontrivial=_nontrivial, classes=_classes,
+                             {'quick': 110, 'thorough': 650}, nontrivial=_nontrivial, classes=_classes,
                              shards={'quick': 1, 'thorough': 2}, weight=3.0 if fam in ('utpm', 'alias') else 1.5))
     # constants of unusual NumPy dtypes (values at the limits of the type), scalar and ndarray, on either side
     for op in OPS:
@@ -986,11 +986,11 @@ def buckets(tier):
             for lk, rk in (('utpm', xk), (xk, 'utpm')):
                 bl.append(Bucket('%s:%s:%s' % (op, lk, rk),
                                  (lambda op=op, lk=lk, rk=rk: binary_cases(op, lk, rk, tier)), prop,
-                                 {'quick': 60, 'thorough': 500}, nontrivial=_nontrivial, classes=_classes,
+                                 {'quick': 50, 'thorough': 500}, nontrivial=_nontrivial, classes=_classes,
                                  weight=2.0 if op in ('mul', 'truediv') else 1.0))
         for fam in ('xscalar', 'xndarray'):
             bl.append(Bucket('i%s:%s' % (op, fam), (lambda op=op, fam=fam: inplace_cases(op, fam, tier)), prop,
-                             {'quick': 140, 'thorough': 650}, nontrivial=_nontrivial, classes=_classes,
+                             {'quick': 110, 'thorough': 650}, nontrivial=_nontrivial, classes=_classes,
                              shards={'quick': 1, 'thorough': 2}, weight=1.5))
     # long series, D in {12, 16, 24}, exact regime (kernels that change algorithm with D)
     for op in ('mul', 'truediv'):
